@@ -38,6 +38,8 @@ LR_GRAMMARS = [
     ('lr-direct', "start: e $ ;\n\ne: e '+' t | t ;\n\nt: t '*' f | f ;\n\nf: '(' ~ e ')' | /\\d/ ;\n"),
     ('lr-alias', "start: e $ ;\n\ne: x '+' t | t ;\n\nx: e ;\n\nt: /\\d/ ;\n"),
     ('lr-named', "start: e $ ;\n\ne: l:e op:'-' r:t | t ;\n\nt: /\\d/ | '(' @:e ')' ;\n"),
+    # an ordinary alternative before the left-recursive one re-enters the rule further on while the seed is growing
+    ('lr-after-plain-alternative', "start: e $ ;\n\ne: t '*' t | e '+' t | t ;\n\nt: '(' e ')' | /\\d/ ;\n"),
     ('lr-shared-prefix-cut', "start: e $ ;\n\ne: e '+' t '*' | e '+' t | t ;\n\nt: '(' ~ e ')' | /\\d/ ;\n"),
 ]
 MEMO_GRAMMARS = [
